@@ -118,3 +118,58 @@ func VerifC01_SplitBrain() {
 		sym.Cover("none-decided")
 	}
 }
+
+// VerifC02_UnanimousTimely (V3 end to end): two real participants with the
+// same input whose powers together form a strong quorum (arbitrary otherwise),
+// a timely network (every honest message reaches the other participant before
+// any timeout) and a Byzantine member (< 1/3) that votes for a fork, for
+// bottom or not at all: both participants decide the common input, in round 0,
+// without any timeout.
+func VerifC02_UnanimousTimely() {
+	input := VerifX(2)
+	d := newVerifDuo([2]*ECChain{input, input})
+	sym.Assume(IsStrongQuorum(d.e[0].power(0)+d.e[0].power(1), d.e[0].total()))
+	for k := 0; k < 2; k++ {
+		d.e[k].start()
+	}
+	byz := sym.Choice("byzantine-votes", 3) // 0 silent, 1 for a fork, 2 for bottom where allowed
+	for _, phase := range []Phase{QUALITY_PHASE, PREPARE_PHASE, COMMIT_PHASE, DECIDE_PHASE} {
+		for k := 0; k < 2; k++ {
+			e := d.e[k]
+			if i := d.own(k, phase); i >= 0 && e.p.Progress().ID == verifInstance {
+				e.echo(i)
+			}
+		}
+		for k := 0; k < 2; k++ {
+			e, o := d.e[k], 1-k
+			if i := d.own(o, phase); i >= 0 && e.p.Progress().ID == verifInstance {
+				if m := d.built(o, i); m != nil {
+					e.deliver(m)
+				}
+			}
+		}
+		// the Byzantine member's vote of this phase, to both
+		for k := 0; k < 2 && byz != 0; k++ {
+			e := d.e[k]
+			if e.p.Progress().ID != verifInstance {
+				continue
+			}
+			var m *GMessage
+			switch {
+			case byz == 1 && (phase == QUALITY_PHASE || phase == PREPARE_PHASE):
+				m = e.message(verifByzIdx, 0, phase, VerifX(4), 0, 0)
+			case byz == 2 && (phase == PREPARE_PHASE || phase == COMMIT_PHASE):
+				m = e.message(verifByzIdx, 0, phase, &ECChain{}, 0, 0)
+			}
+			if m != nil {
+				e.deliver(m)
+			}
+		}
+	}
+	for k := 0; k < 2; k++ {
+		e := d.e[k]
+		sym.Assert(len(e.h.decisions) == 1 && e.h.decisions[0].Vote.Value.Eq(input), "V3: with a common input and a timely network every honest participant decides it")
+		// (the harness never fires a phase timeout: the decision is reached on messages alone)
+	}
+	sym.Cover("both-decided-the-input")
+}
